@@ -31,7 +31,7 @@ def generate(rng, tier):
             xs, x = axis_points(rng, x, rng.choice([0, 1, 2, 2]), *rngv)
             ys, y = axis_points(rng, y, rng.choice([0, 1, 2, 2]), *rngv)
             zs, z = axis_points(rng, z, rng.choice([0, 1, 2, 2]), *rngv)
-            segs.append((rng.choice([1, 1000, 5000, 65535]), xs, ys, zs, []))
+            segs.append((rng.choice([1, 1000, 5000, 65535, 0] if i % 4 == 0 else [1, 1000, 5000, 65535]), xs, ys, zs, []))
         blk = build(scale, start, segs, use_yaw=rng.random() < 0.3)
         out.append((f"stats {hx(skyb(blk, rng))} B", True))
     # interior extrema on purpose: out-and-back and overshoot cubics on each axis
